@@ -69,7 +69,7 @@ def _defs(analysis_key, stack_value, key_field, v):
 c = contract(K + "is_value_matches_key",
              params={"analysis_key": T.Str, "stack_value": T.Ref("KnownStackValue"),
                      "key_field": T.Union(T.NoneT, T.Cls("TransactionField"))},
-             returns=T.Bool, ghost={"v": VISIT}, tags=["C10", "C01", "C03", "C06", "C07", "C08", "C09"], touch=["stack_value"])
+             returns=T.Bool, ghost={"v": VISIT}, tags=["C10", "C01", "C03", "C06", "C07", "C08", "C09", "C13"], touch=["stack_value"])
 requires(c, "valid_key", lambda analysis_key: valid_key(analysis_key))
 requires(c, "field_known", lambda analysis_key, key_field:
          Implies(IsNone(key_field), Or(*[Eq(key_base(analysis_key), b) for b in BASE_FIELDS])))
